@@ -100,8 +100,9 @@ inductive Out
   | presenceChanged (bareJid : String) (res : String)
   /-- roster request number `k` written to the stream -/
   | sentGet (k : Nat)
-  /-- `<iq type='result' id=…/>` sent by the roster manager (the acknowledgement of a push) -/
-  | sentResult (id : String)
+  /-- `<iq type='result' id=… to=…/>` sent by the roster manager (the acknowledgement of a push; `to` is the
+      push's `from` attribute verbatim, absent when that was absent) -/
+  | sentResult (id : String) (to : String)
   /-- `feature-not-implemented` error sent by the stream for an IQ request nobody handled -/
   | sentError (id : String)
   deriving DecidableEq, Repr
@@ -189,7 +190,10 @@ def step (own : String) (s : St) : Op → St × List Out
       match type with
       | .set =>
         let r := applyItems s.entries items
-        ({ s with entries := r.1 }, .sentResult id :: r.2)
+        ({ s with entries := r.1 }, .sentResult id sender :: r.2)
+      -- "a roster request sent to this client is not ours to answer": `handleStanza` returns false for `get`,
+      -- the stream's fallback replies with an error
+      | .get => (s, [.sentError id])
       | _ => (s, [])
     else
       -- `handleStanza` returns false; no other extension takes it; the stream answers requests with an error
